@@ -12,32 +12,34 @@ COMMON_NOTE = (
     "harness/translate.py (tables regenerated from /repo each run) and the correspondence harness. "
 )
 
-# id -> (claimed, level text, level note, technique)
-CHECKS: dict[str, dict] = {
-    "C04": dict(
-        text="Lean theorems over the model of _assign_pages + group-change detection (all row lists, nrow, "
-             "reservations, flag patterns, by induction): numbering from 1 without gaps, a break only when the "
-             "row does not fit or a grouping rule demands it, always then, prefix stability. The model is tied to "
-             "the code on every run by unit correspondence (exhaustive small vectors + random) and by "
-             "observation of whole documents whose observed pagination is judged by the Lean-defined oracle.",
-        note=COMMON_NOTE + "Row costs in the document-level oracle come from the harness (texts well inside a "
-             "line band, measured with the real get_string_width); Pillow, polars and pydantic are parameters.",
-        technique="Lean 4 proof (induction over rows) + differential correspondence model/implementation",
-        design="7/C04",
-    ),
-}
+def load_checks() -> dict[str, dict]:
+    """every harness/props/cNN.py that defines MANIFEST = dict(text, note, technique, design) is a claimed check"""
+    import importlib
+    import sys
+
+    sys.path.insert(0, str(VERIF))
+    out = {}
+    for f in sorted((VERIF / "harness" / "props").glob("c[0-9]*.py")):
+        mod = importlib.import_module(f"harness.props.{f.stem}")
+        m = getattr(mod, "MANIFEST", None)
+        if m:
+            out[f.stem.upper()] = m
+    return out
+
 
 NOT_YET = "check not built yet in this revision (planned as Lean proof + correspondence, see DESIGN.md section 7)"
 
 
 def main():
     props = [json.loads(l)["id"] for l in (VERIF / "properties.jsonl").read_text().splitlines() if l.strip()]
+    CHECKS = load_checks()
+    na_reasons = json.loads((VERIF / 'not_applicable.json').read_text()) if (VERIF / 'not_applicable.json').exists() else {}
     checks = []
     na = []
     for pid in props:
         c = CHECKS.get(pid)
         if c is None:
-            na.append(dict(property_id=pid, reason=NOT_YET))
+            na.append(dict(property_id=pid, reason=na_reasons.get(pid, NOT_YET)))
             continue
         checks.append(dict(
             property_id=pid,
@@ -47,7 +49,7 @@ def main():
             replay_cmd_template=f"./check {pid} --replay {{path}}",
             engine="lean-model+correspondence",
             level_claimed=dict(category="proof", text=c["text"], design_ref=f"DESIGN.md section {c['design']}"),
-            level_note=c["note"],
+            level_note=COMMON_NOTE + c["note"],
             technique=c["technique"],
         ))
     man = dict(
